@@ -199,6 +199,8 @@ def gen_body(rng, pnames):
         ["def zq_inner{0}({1}):".format(u, a if pnames else "q"), "    return {0}".format(a if pnames else "q")],
         ["zq_lam{0} = lambda {1}: {1}".format(u, a if pnames else "q")],
         ["zq_comp{0} = [{1} for zq_e in range(2)]".format(u, a)],
+        # annotated assignments directly in the body (with and without a value)
+        ["zq_total{0}: int = {1}".format(u, a if pnames else 1), "zq_decl{0}: str".format(u)],
         # nested scopes that CLOSE OVER a parameter (no shadowing): the reference inside must be rewritten too
         ["def zq_close{0}(zq_v):".format(u), "    return zq_v * {0}".format(b)] if pnames else ["zq_noclose{} = 0".format(u)],
         ["zq_key{0} = lambda zq_item: zq_item - {1}".format(u, a)] if pnames else ["zq_nokey{} = 0".format(u)],
